@@ -21,7 +21,7 @@ import (
 	"verif/internal/model"
 )
 
-const rule = "cases: (twin pair, type argument, bytes) for 28 parser twin pairs (four of them conversions chained behind a parser: KeyCertificateFromCertificate(ReadCertificate) vs NewKeyCertificate, ReadRouterIdentity.AsDestination vs ReadDestination, NewRouterIdentityFromKeysAndCert(ReadDestination) vs ReadRouterIdentity, NewDestination(ReadKeysAndCert) vs ReadDestination) - generic vs fixed-size keys-and-cert readers (compared only on inputs whose certificate declares the fixed reader's key sizes), value- vs pointer-returning readers, destination / router-identity wrappers vs ReadKeysAndCert (compared on key types the wrapper permits), remainder-returning vs exact-length constructors (compared on inputs consumed completely), ReadLeaseSet's destination vs ReadDestinationFromLeaseSet - inputs valid / mutated / arbitrary as in C01; plus builder twins over generated arguments: five ways to make a key certificate, two certificate constructors, NewI2PString vs ToI2PString, NewIntegerFromInt vs EncodeIntN, NewRouterIdentity vs NewRouterIdentityFromKeysAndCert vs NewDestination; and builder histories: a CertificateBuilder driven through a generated sequence of 2..8 WithType/WithKeyTypes/WithPayload/Build calls (builder reuse) compared at every Build with the direct constructor on the arguments in effect. Oracle: same acceptance, identical serialisation, identical remainder. Non-trivial: at least one twin accepted (and the input is in the pair's common domain); distinct by (pair, input)."
+const rule = "cases: (twin pair, type argument, bytes) for 28 parser twin pairs (four of them conversions chained behind a parser: KeyCertificateFromCertificate(ReadCertificate) vs NewKeyCertificate, ReadRouterIdentity.AsDestination vs ReadDestination, NewRouterIdentityFromKeysAndCert(ReadDestination) vs ReadRouterIdentity, NewDestination(ReadKeysAndCert) vs ReadDestination) - generic vs fixed-size keys-and-cert readers (compared only on inputs whose certificate declares the fixed reader's key sizes), value- vs pointer-returning readers, destination / router-identity wrappers vs ReadKeysAndCert (compared on key types the wrapper permits), remainder-returning vs exact-length constructors (compared on inputs consumed completely), ReadLeaseSet's destination vs ReadDestinationFromLeaseSet - inputs valid / mutated / arbitrary as in C01; plus builder twins over generated arguments: five ways to make a key certificate, two certificate constructors, NewI2PString vs ToI2PString, NewIntegerFromInt vs EncodeIntN, NewRouterIdentity vs NewRouterIdentityFromKeysAndCert vs NewDestination; and builder histories: a CertificateBuilder driven through a generated sequence of 2..8 WithType/WithKeyTypes/WithPayload/Build calls (builder reuse) compared at every Build with the direct constructor on the arguments in effect, and every certificate built earlier in the history compared again after each later step with what its twin serialised to. Oracle: same acceptance, identical serialisation, identical remainder. Non-trivial: at least one twin accepted (and the input is in the pair's common domain); distinct by (pair, input)."
 
 func TestMain(m *testing.M) { ev.Main(m, "C19", rule) }
 
@@ -366,7 +366,21 @@ func checkSeq(c SeqCase, r *ev.Rec) error {
 	lastSetter := "" // "keytypes" or "payload"
 	ks, kc := 0, 0
 	builds := 0
+	// certificates built earlier in the history stay what they were while the builder is used
+	// further: each is compared again, after every later step, with what its twin from the
+	// direct constructor serialised to (the twin never saw the builder)
+	type held struct {
+		step int
+		cert *certificate.Certificate
+		want []byte
+	}
+	var earlier []held
 	for i, op := range c.Ops {
+		for _, h := range earlier {
+			if got := h.cert.Bytes(); !bytes.Equal(got, h.want) {
+				return fmt.Errorf("step %d (%s): the certificate built at step %d now serialises to % x; when it was built it agreed with the direct constructor on % x (the builder was used further in between)", i, op.Op, h.step, got, h.want)
+			}
+		}
 		switch op.Op {
 		case "type":
 			if _, err := b.WithType(uint8(op.A)); err == nil {
@@ -416,7 +430,18 @@ func checkSeq(c SeqCase, r *ev.Rec) error {
 			if gerr == nil && !bytes.Equal(got.Bytes(), want.Bytes()) {
 				return fmt.Errorf("step %d: Build() = % x, the direct constructor on the arguments in effect (type %d, last setter %q, key types %d/%d) gives % x", i, got.Bytes(), ctype, lastSetter, ks, kc, want.Bytes())
 			}
+			if gerr == nil {
+				earlier = append(earlier, held{i, got, append([]byte{}, want.Bytes()...)})
+			}
 		}
+	}
+	for _, h := range earlier {
+		if got := h.cert.Bytes(); !bytes.Equal(got, h.want) {
+			return fmt.Errorf("end of the history: the certificate built at step %d now serialises to % x; when it was built it agreed with the direct constructor on % x", h.step, got, h.want)
+		}
+	}
+	if len(earlier) >= 2 {
+		r.Class("builderseq:earlier-builds-compared-again")
 	}
 	if builds >= 2 {
 		r.Class("builderseq:reused-builder")
